@@ -143,4 +143,128 @@ THEOREM DecoderMessage == Spec => []DecInv
     BY <2>1, <2>2 DEF Next
 <1>3. QED
   BY <1>1, <1>2, PTL DEF Spec
+
+-----------------------------------------------------------------------------
+(* The interval width on the ENcoder's side evolves by the same rule (it is  *)
+(* the same number in encoder and decoder); here without any reference to a  *)
+(* decoder's point: for messages of any length it stays within               *)
+(*      T <= range <= T * B = 2^S,                                           *)
+(* i.e. it always fits the state type, never becomes too small for another   *)
+(* symbol, and one word of renormalisation suffices (C02 / C12).             *)
+LEMMA LinB == ASSUME NEW a \in Nat, NEW b \in Nat, NEW d \in Nat, NEW m \in Nat, a + d <= m, d > 0, b = a PROVE b < m /\ b <= m
+  OBVIOUS
+LEMMA LinC == ASSUME NEW a \in Nat, NEW b \in Nat, NEW d \in Nat, a <= b, b <= d PROVE a <= d
+  OBVIOUS
+
+THEOREM RangeKeeps ==
+    ASSUME NEW rg \in Nat, rg >= Thr, rg <= Thr * B, NEW p \in Nat, p >= 1, p <= N
+    PROVE  LET r1 == NewRange(rg, N, p)
+           IN /\ r1 \in Nat /\ r1 >= 1 /\ r1 <= rg
+              /\ r1 * B \in Nat /\ r1 * B >= Thr
+              /\ r1 < Thr => r1 * B < Thr * B
+<1> DEFINE sc == Scale(rg, N)
+<1> DEFINE r1 == NewRange(rg, N, p)
+<1>0. N > 0 /\ B > 0 /\ K > 0 /\ Thr \in Nat /\ K * B \in Nat /\ Thr * B \in Nat
+  BY Widths, SMT DEF Thr
+<1>1. sc \in Nat /\ sc >= K /\ rg = N * sc + (rg % N) /\ rg % N \in Nat
+  <2>1. sc \in Nat /\ rg = N * sc + (rg % N) /\ rg % N \in Nat
+    BY <1>0, Widths, DivModFacts DEF Scale
+  <2>2. rg >= K * N
+    BY DEF Thr
+  <2>3. QED
+    BY <2>1, <2>2, <1>0, Widths, DivGe DEF Scale
+<1>2. r1 = sc * p /\ r1 \in Nat
+  <2>1. sc * p \in Nat
+    BY <1>1, SMT
+  <2>2. QED
+    BY <2>1 DEF NewRange
+<1>3. r1 >= K /\ r1 >= 1
+  <2>1. sc * p >= K * p
+    BY <1>1, Widths, MulMono
+  <2>2. p * K >= 1 * K
+    BY Widths, MulMono
+  <2>3. p * K = K * p /\ 1 * K = K /\ K * p \in Nat
+    BY Widths, SMT
+  <2>4. r1 >= K
+    BY <2>1, <2>2, <2>3, <1>2, Widths, LinA
+  <2>5. QED
+    BY <2>4, <1>2, Widths, LinA
+<1>4. r1 <= rg
+  <2>1. N * sc >= p * sc
+    BY <1>1, Widths, MulMono
+  <2>2. p * sc = sc * p /\ N * sc \in Nat
+    BY <1>1, Widths, SMT
+  <2>3. N * sc <= rg
+    BY <1>1, <2>2, SMT
+  <2>4. QED
+    BY <2>1, <2>2, <2>3, <1>2, LinC
+<1>5. r1 * B >= Thr /\ r1 * B \in Nat
+  <2>1. r1 * B >= K * B
+    BY <1>2, <1>3, Widths, MulMono
+  <2>2. B * K >= N * K
+    BY Widths, MulMono
+  <2>3. B * K = K * B /\ N * K = K * N
+    BY Widths, SMT
+  <2>4. r1 * B \in Nat
+    BY <1>2, Widths, SMT
+  <2>5. QED
+    BY <2>1, <2>2, <2>3, <2>4, <1>0, LinA DEF Thr
+<1>6. ASSUME r1 < Thr PROVE r1 * B < Thr * B
+  <2>1. r1 + 1 \in Nat /\ Thr >= r1 + 1
+    BY <1>6, <1>2, <1>0, SMT
+  <2>2. Thr * B >= (r1 + 1) * B
+    BY <2>1, <1>0, Widths, MulMono
+  <2>3. (r1 + 1) * B = r1 * B + B
+    BY <1>2, Widths, MulSucc
+  <2>4. r1 * B + B <= Thr * B
+    BY <2>2, <2>3
+  <2>5. QED
+    BY <2>4, <1>5, <1>0, Widths, LinB
+<1>7. QED
+  BY <1>2, <1>3, <1>4, <1>5, <1>6
+
+InitE == range \in Nat /\ range >= Thr /\ range <= Thr * B        \* a fresh encoder has range = 2^S = T * B
+StepE(p) == LET r1 == NewRange(range, N, p) IN range' = (IF r1 < Thr THEN r1 * B ELSE r1)
+NextE == \E p \in Nat : p >= 1 /\ p <= N /\ StepE(p)
+SpecE == InitE /\ [][NextE]_range
+EncInv == range \in Nat /\ range >= Thr /\ range <= Thr * B
+
+THEOREM EncoderMessage == SpecE => []EncInv
+<1>1. InitE => EncInv
+  BY DEF InitE, EncInv
+<1>2. EncInv /\ [NextE]_range => EncInv'
+  <2> SUFFICES ASSUME EncInv, [NextE]_range PROVE EncInv'
+    OBVIOUS
+  <2>1. CASE UNCHANGED range
+    BY <2>1 DEF EncInv
+  <2>2. ASSUME NEW p \in Nat, p >= 1, p <= N, StepE(p) PROVE EncInv'
+    <3> DEFINE r1 == NewRange(range, N, p)
+    <3>1. range \in Nat /\ range >= Thr /\ range <= Thr * B
+      BY DEF EncInv
+    <3>2. /\ r1 \in Nat /\ r1 >= 1 /\ r1 <= range
+          /\ r1 * B \in Nat /\ r1 * B >= Thr
+          /\ r1 < Thr => r1 * B < Thr * B
+      BY <2>2, <3>1, RangeKeeps
+    <3>3. Thr \in Nat /\ Thr * B \in Nat
+      BY Widths, SMT DEF Thr
+    <3>4. CASE r1 < Thr
+      <4>1. range' = r1 * B
+        BY <3>4, <2>2 DEF StepE
+      <4>2. r1 * B <= Thr * B
+        BY <3>4, <3>2, <3>3, SMT
+      <4>3. QED
+        BY <4>1, <4>2, <3>2 DEF EncInv
+    <3>5. CASE ~(r1 < Thr)
+      <4>1. range' = r1
+        BY <3>5, <2>2 DEF StepE
+      <4>2. r1 >= Thr /\ r1 <= Thr * B
+        BY <3>5, <3>1, <3>2, <3>3, LinC
+      <4>3. QED
+        BY <4>1, <4>2, <3>2 DEF EncInv
+    <3>6. QED
+      BY <3>4, <3>5
+  <2>3. QED
+    BY <2>1, <2>2 DEF NextE
+<1>3. QED
+  BY <1>1, <1>2, PTL DEF SpecE
 =============================================================================
